@@ -468,7 +468,8 @@ def run(prog, rep, tier):
     check_normalised_qtotal(prog, rep)
     check_stale_extension(prog, rep)
     check_decorator(prog, rep)
-    from ..twins import check_raise_guards, check_regions, check_skip_transpose
+    from ..twins import (check_accumulate_options, check_raise_guards, check_regions,
+                         check_skip_transpose)
     pyx = load_pyx(prog)
     check_regions(prog, rep, pairs, pyx)
     units = []
@@ -477,6 +478,8 @@ def run(prog, rep, tier):
         if pyx.has_func(repl):
             units.append((pyx, repl, pyx.func(repl)))
     check_skip_transpose(rep, units)
+    if check_accumulate_options(prog, rep) < 2:
+        raise AnalysisError('PAIR-accumulate-options: the fast_dot_sum closures were not found')
     if check_raise_guards(prog, rep, pairs, pyx) < 3:
         raise AnalysisError('PAIR-raise-guards: fewer than 3 common raises in the twins')
     rep.floor('PAIR-regions', 15)
